@@ -330,3 +330,42 @@ def source_pos(funcnode):
         _pos_cache[id(funcnode)] = r
     seq = r[1]
     return lambda node: seq.get(id(node), 10 ** 9)
+
+
+def positional(loop, expr, funcnode):
+    """Canonical text of `expr` inside the body of `loop`, with "the element at the loop's current position" written the same way for
+    the three spellings of parallel iteration:
+        for i, m in enumerate(S): ... T[i] ...      for m, t in zip(S, T): ... t ...      for i in range(len(S)): ... S[i] ... T[i] ...
+    The element of sequence S at the current position becomes `S[@]` (local aliases of S are expanded first)."""
+    import copy
+    it = loop.iter
+    tg = loop.target
+    subst = {}      # local name -> sequence text
+    index = None
+    if isinstance(it, ast.Call) and isinstance(it.func, ast.Name):
+        fn = it.func.id
+        if fn == "enumerate" and len(it.args) == 1 and isinstance(tg, ast.Tuple) and len(tg.elts) == 2 \
+                and all(isinstance(e, ast.Name) for e in tg.elts):
+            index = tg.elts[0].id
+            subst[tg.elts[1].id] = deep_canon(it.args[0], funcnode)
+        elif fn in ("zip", "izip") and isinstance(tg, ast.Tuple) and len(tg.elts) == len(it.args) \
+                and all(isinstance(e, ast.Name) for e in tg.elts):
+            for e, a in zip(tg.elts, it.args):
+                subst[e.id] = deep_canon(a, funcnode)
+        elif fn in ("range", "xrange") and len(it.args) == 1 and isinstance(tg, ast.Name) and isinstance(it.args[0], ast.Call) \
+                and isinstance(it.args[0].func, ast.Name) and it.args[0].func.id == "len":
+            index = tg.id
+
+    class T(ast.NodeTransformer):
+        def visit_Subscript(self, n):
+            self.generic_visit(n)
+            if index is not None and isinstance(n.slice, ast.Name) and n.slice.id == index:
+                return ast.Subscript(value=n.value, slice=ast.Name(id="@", ctx=ast.Load()), ctx=n.ctx)
+            return n
+
+        def visit_Name(self, n):
+            if n.id in subst:
+                return ast.Subscript(value=parse_expr(subst[n.id]), slice=ast.Name(id="@", ctx=ast.Load()), ctx=ast.Load())
+            return n
+    e = inline_defs(copy.deepcopy(expr), funcnode)
+    return canon(T().visit(e))
